@@ -387,10 +387,10 @@ theorem typedValueW_cl (four : Bool) (v : Bytes) :
   cases four <;> simp [typedValueW, typedValue]
 
 theorem origin_fromUpdate (u : Update) :
-    getOrigin (fromUpdate u) = .ok (rfcOriginSlot u.attrs).get ∧
-    slotOf 1 (fromUpdate u) (rfcOriginSlot u.attrs).get = rfcOriginSlot u.attrs := by
+    getOrigin (fromUpdate u) = .ok (wireOriginSlot u.attrs).get ∧
+    slotOf 1 (fromUpdate u) (wireOriginSlot u.attrs).get = wireOriginSlot u.attrs := by
   have hl := lookup_isSome_fromUpdate u 1 0x40 rfl
-  unfold getOrigin getTyped rfcOriginSlot slotOf
+  unfold getOrigin getTyped wireOriginSlot slotOf
   rw [get_fromUpdate u 1 0x40 rfl, hl]
   cases hw : firstWire 1 u.attrs with
   | none => simp [PathSel.Slot.get]
@@ -402,10 +402,10 @@ theorem origin_fromUpdate (u : Update) :
     · simp [PathSel.Slot.get]
 
 theorem u32_fromUpdate (u : Update) (c : Nat) (hc : c = 4 ∨ c = 5 ∨ c = 9) :
-    getU32 c (fromUpdate u) = .ok (rfcU32 c u.attrs) := by
+    getU32 c (fromUpdate u) = .ok (wireU32 c u.attrs) := by
   obtain ⟨f, hf⟩ : ∃ f, typeFlags c = some f := by
     rcases hc with rfl | rfl | rfl <;> exact ⟨_, rfl⟩
-  unfold getU32 getTyped rfcU32
+  unfold getU32 getTyped wireU32
   rw [get_fromUpdate u c f hf]
   cases hw : firstWire c u.attrs with
   | none => simp
@@ -419,8 +419,8 @@ theorem u32_fromUpdate (u : Update) (c : Nat) (hc : c = 4 ∨ c = 5 ∨ c = 9) :
     · rcases hc with rfl | rfl | rfl <;> simp [Attr.parseValue, rd32]
     · simp
 
-theorem cl_fromUpdate (u : Update) : getClusterLen (fromUpdate u) = .ok (rfcClusterLen u.attrs) := by
-  unfold getClusterLen getTyped rfcClusterLen
+theorem cl_fromUpdate (u : Update) : getClusterLen (fromUpdate u) = .ok (wireClusterLen u.attrs) := by
+  unfold getClusterLen getTyped wireClusterLen
   rw [get_fromUpdate u 10 0x80 rfl]
   cases hw : firstWire 10 u.attrs with
   | none => simp
@@ -432,10 +432,10 @@ theorem cl_fromUpdate (u : Update) : getClusterLen (fromUpdate u) = .ok (rfcClus
     · simp [hm]
 
 theorem path_fromUpdate (u : Update) :
-    getPath (fromUpdate u) = .ok (rfcPathSlot u.attrs).get ∧
-    slotOf 2 (fromUpdate u) (rfcPathSlot u.attrs).get = rfcPathSlot u.attrs := by
+    getPath (fromUpdate u) = .ok (wirePathSlot u.attrs).get ∧
+    slotOf 2 (fromUpdate u) (wirePathSlot u.attrs).get = wirePathSlot u.attrs := by
   have hl := lookup_isSome_fromUpdate u 2 0x40 rfl
-  unfold getPath getTyped rfcPathSlot slotOf
+  unfold getPath getTyped wirePathSlot slotOf
   rw [get_fromUpdate u 2 0x40 rfl, hl]
   cases hw : firstWire 2 u.attrs with
   | none => simp [PathSel.Slot.get]
@@ -452,11 +452,11 @@ theorem path_fromUpdate (u : Update) :
 /-- every read of `eligible` / `cmp` on the map built from an UPDATE finds what the reference
 reading of the attribute section says -/
 theorem readRoute_fromUpdate (u : Update) (tb : Tb) :
-    readRoute (fromUpdate u) tb = .ok (rfcRoute u.attrs tb) := by
+    readRoute (fromUpdate u) tb = .ok (wireRoute u.attrs tb) := by
   obtain ⟨o1, o2⟩ := origin_fromUpdate u
   obtain ⟨p1, p2⟩ := path_fromUpdate u
   simp only [readRoute, o1, p1, u32_fromUpdate u 5 (Or.inr (Or.inl rfl)), u32_fromUpdate u 4 (Or.inl rfl),
-    u32_fromUpdate u 9 (Or.inr (Or.inr rfl)), cl_fromUpdate, o2, p2, rfcRoute]
+    u32_fromUpdate u 9 (Or.inr (Or.inr rfl)), cl_fromUpdate, o2, p2, wireRoute]
 
 /-! ### totality: the values typed attributes hold -/
 
@@ -614,7 +614,11 @@ theorem valok_empty : ValOk [] := fun _ h => by simp at h
 unknown attributes included - holds well-formed typed values -/
 theorem valok_fromUpdate (u : Update) : ValOk (fromUpdate u) := valok_fromWire u.attrs [] valok_empty
 
-/-- the attributes an API call hands over are ones the API can build -/
+/-- the typed attributes an API call hands over are PARSE IMAGES (`AttrValOk`: the value octets parse as
+the type and re-compose to themselves).  Narrower than "every value the public API can build": a
+directly written `OriginType::Unimplemented(n)`, n <= 2, or a `HopPath` with a non-empty AS_SEQUENCE
+held as `Hop::Segment` next to `Hop::Asn`s composes to octets of ANOTHER value and has no `Attr` of
+its own (see the header of Rc/Model/PathSelGlue.lean). -/
 def OpOk : Op → Prop
   | .set a => AttrValOk a
   | .setFromEnum a => AttrValOk a
